@@ -88,6 +88,7 @@ def run_shard(rec, tier, seed, shard, nshards):
             files = []
             ok = True
             scored = []
+            screen_fp = [kit.array_hash(x) for x in (screen.observations, screen.observation_mask, screen.plate_names, screen.plate_ids, screen.treatment_ids, screen.sample_ids)]
             # chunk jobs are separate processes in production: they need not share a seed or a generator
             rng_mode = str(rng.choice(["same-seed", "seed-per-chunk", "none", "shared-object"]))
             shared_gen = np.random.default_rng(int(rng.integers(0, 2**31)))
@@ -110,6 +111,7 @@ def run_shard(rec, tier, seed, shard, nshards):
             for call in scorer.calls:
                 scored.extend(call.keys())
             rec.count("coverage_checks")
+            rec.check([kit.array_hash(x) for x in (screen.observations, screen.observation_mask, screen.plate_names, screen.plate_ids, screen.treatment_ids, screen.sample_ids)] == screen_fp, "C06/score_chunk/screen-mutated", "score_chunk changed the screen", w)
             rec.check(len(scorer.calls) == n_chunks, "C06/coverage/scorer-call-count", lambda: "scorer called %d times for %d chunks" % (len(scorer.calls), n_chunks), w)
             rec.check(sorted(scored) == cand, "C06/coverage/not-each-candidate-once", lambda: "scored ids %r across chunks, candidates are %r (unobserved %r, batch %r)" % (sorted(scored), cand, unobserved, batch), w)
             rec.check(not (set(scored) & observed), "C06/coverage/observed-plate-scored", lambda: "observed plates %r were handed to the scorer" % sorted(set(scored) & observed), w)
@@ -189,6 +191,13 @@ def run_shard(rec, tier, seed, shard, nshards):
                     allowed = list(kper_allowed or [])
                 rec.count("selections_checked")
                 rec.count("selections_policy_" + pol_kind)
+                if pol_kind != "rec":
+                    try:
+                        sel2 = select_next_plate(comb, screen, policy, batch_plate_ids=(list(batch) if batch_arg is not None else None), rng=np.random.default_rng(0))
+                        rec.check((sel is None) == (sel2 is None) and (sel is None or int(sel.plate_id) == int(sel2.plate_id)), "C06/select/not-repeatable", "a second identical select_next_plate call returned another plate", w)
+                    except Exception as e:
+                        rec.violation("C06/select/not-repeatable", "a second identical select_next_plate call raised %r" % (e,), w)
+                rec.check([kit.array_hash(x) for x in (screen.observations, screen.observation_mask, screen.plate_names, screen.plate_ids, screen.treatment_ids, screen.sample_ids)] == screen_fp, "C06/select/screen-mutated", "select_next_plate changed the screen", w)
                 ww = dict(w, order=order, policy=pol_kind, allowed=allowed)
                 if not allowed:
                     rec.count("selections_none")
